@@ -15,7 +15,7 @@ META = {
         "ndim, per-axis class single/even/odd, complex?, nvdim, labels default?, mapping "
         "kind); non-trivial = some axis has >= 2 cells."
     ),
-    "cases": {"quick": 360, "thorough": 15000},
+    "cases": {"quick": 360, "thorough": 240000},
     "workers": {"quick": 8, "thorough": 16},
     "timeout": {"quick": 600, "thorough": 5400},
     "deciding": [
